@@ -166,7 +166,10 @@ func (c *connection) send(conn net.Conn, connDone chan bool) {
 		case m = <-c.client.sendFailQueue: // Send failure queue messages first
 		default:
 			select {
+			case m = <-c.client.sendFailQueue: // a request another sender could not write
 			case m = <-c.client.sendQueue: // Fetch jobs
+			case <-connDone: // connection closed: never take a request for a dead connection
+				return
 			case <-t.C:
 				if c.isClosed {
 					return
@@ -266,7 +269,11 @@ func (c *connection) recv(conn net.Conn, connDone chan bool) {
 func (c *connection) close(conn net.Conn) {
 	c.connLock.Lock()
 	defer c.connLock.Unlock()
-	c.isClosed = true
+	// a goroutine that still serves an earlier connection must not mark the current,
+	// healthy one as closed
+	if conn == c.conn {
+		c.isClosed = true
+	}
 	if conn != nil {
 		_ = conn.Close()
 	}
